@@ -339,6 +339,7 @@ def np_index(eng, st, arr, idx, line=0):
         return arr.fn(tuple(out))
 
     r = ArrV(tuple(shape), fn, arr.dtype, bufs=arr.bufs)
+    r._view_of = (arr, tuple(p[1] if p[0] == "int" else None for p in plan))  # basic-index provenance (used by assumed contracts)
     return r
 
 
